@@ -1,6 +1,8 @@
 import Gaftools.Props.C06
 import Gaftools.Props.C06b
 import Gaftools.Props.C06c
+import Gaftools.Props.C06d
+import Gaftools.Props.C06e
 #print axioms Gaftools.C18.runOrder_ranges
 #print axioms Gaftools.C18.numberChain_scaffold
 #print axioms Gaftools.C18.numberChain_bubble
@@ -19,3 +21,9 @@ import Gaftools.Props.C06c
 #print axioms Gaftools.C06.buildScaffold_error_iff
 #print axioms Gaftools.C06.buildScaffold_error_kind
 #print axioms Gaftools.C06.buildScaffold_ok
+#print axioms Gaftools.C06.census_path
+#print axioms Gaftools.C06.finish_ok_census
+#print axioms Gaftools.C06.finish_ok_general
+#print axioms Gaftools.C06.buildScaffold_wf
+#print axioms Gaftools.C06.decompose_ok_stages
+#print axioms Gaftools.C06.decompose_ok_chain
